@@ -2619,12 +2619,87 @@ class _Compare(ast.NodeTransformer):
         return node
 
 
+def _sentinel_names(tree):
+    """private `S = object()` markers of a module (module level: 'S'; class level: 'self.S', 'cls.S', 'Class.S') that never
+    escape: they are only compared, returned, used as parameter defaults or bound to plain local names"""
+    def is_obj(s):
+        return isinstance(s, ast.Assign) and len(s.targets) == 1 and isinstance(s.targets[0], ast.Name) and s.targets[0].id.startswith("_") and isinstance(s.value, ast.Call) and isinstance(s.value.func, ast.Name) and s.value.func.id == "object" and not s.value.args and not s.value.keywords
+    cands = {}
+    for s in tree.body:
+        if is_obj(s):
+            cands[s.targets[0].id] = {s.targets[0].id}
+        if isinstance(s, ast.ClassDef):
+            for c in s.body:
+                if is_obj(c):
+                    n = c.targets[0].id
+                    cands[n] = {"self." + n, "cls." + n, s.name + "." + n}
+    if not cands:
+        return set(), set()
+    ok_ids = set()
+    for n in ast.walk(tree):
+        if isinstance(n, ast.Compare):
+            ok_ids |= {id(x) for x in [n.left] + n.comparators}
+        elif isinstance(n, ast.Return) and n.value is not None:
+            ok_ids.add(id(n.value))
+        elif isinstance(n, ast.arguments):
+            ok_ids |= {id(d) for d in n.defaults + [d for d in n.kw_defaults if d is not None]}
+        elif isinstance(n, ast.Assign) and all(isinstance(t, ast.Name) for t in n.targets):
+            ok_ids.add(id(n.value))
+        elif isinstance(n, ast.IfExp):
+            ok_ids |= {id(n.body), id(n.orelse)}
+        elif isinstance(n, ast.keyword):
+            pass
+    texts, plain = set(), set()
+    for name, forms in cands.items():
+        refs = [x for x in ast.walk(tree) if (isinstance(x, ast.Name) and x.id == name and isinstance(x.ctx, ast.Load) and name in forms) or (isinstance(x, ast.Attribute) and x.attr == name and isinstance(x.ctx, ast.Load))]
+        # keyword arguments / positional arguments of calls hand the marker on: only a default value that the callee compares is accepted
+        if all(id(r) in ok_ids for r in refs):
+            texts |= forms
+            if name in forms:
+                plain.add(name)
+    return texts, plain
+
+
+_SENT_TEXTS = set()
+
+
+def _fold_sentinel_tests(tree):
+    """<attribute / item / constant> is [not] S  ->  False [True]: a marker that never escapes cannot be found in an attribute"""
+    class T(ast.NodeTransformer):
+        def visit_Compare(self, node):
+            self.generic_visit(node)
+            if len(node.ops) == 1 and isinstance(node.ops[0], (ast.Is, ast.IsNot)):
+                a, b = node.left, node.comparators[0]
+                for s_, o_ in ((a, b), (b, a)):
+                    if isinstance(s_, (ast.Name, ast.Attribute)) and ast.unparse(s_) in _SENT_TEXTS and isinstance(o_, (ast.Attribute, ast.Subscript, ast.Constant)) and ast.unparse(o_) not in _SENT_TEXTS:
+                        return ast.copy_location(ast.Constant(value=isinstance(node.ops[0], ast.IsNot)), node)
+            return node
+    T().visit(tree)
+    # if True: X  ->  X ;  if False: X else: Y -> Y
+    for n in ast.walk(tree):
+        for f in ("body", "orelse", "finalbody"):
+            v = getattr(n, f, None)
+            if isinstance(v, list) and v and isinstance(v[0], ast.stmt):
+                out = []
+                for s in v:
+                    if isinstance(s, ast.If) and isinstance(s.test, ast.Constant) and isinstance(s.test.value, bool):
+                        out.extend(s.body if s.test.value else s.orelse)
+                    else:
+                        out.append(s)
+                if not out and f == "body":
+                    out = [ast.copy_location(ast.Pass(), v[0])]
+                setattr(n, f, out)
+
+
 def canon_flow(tree, pattern=False):
     _SENTINELS.clear()
+    _SENT_TEXTS.clear()
     if isinstance(tree, ast.Module) and not pattern:
-        for s in tree.body:
-            if isinstance(s, ast.Assign) and len(s.targets) == 1 and isinstance(s.targets[0], ast.Name) and s.targets[0].id.startswith("_") and isinstance(s.value, ast.Call) and isinstance(s.value.func, ast.Name) and s.value.func.id == "object" and not s.value.args:
-                _SENTINELS.add(s.targets[0].id)
+        texts, plain = _sentinel_names(tree)
+        _SENTINELS.update(plain)
+        _SENT_TEXTS.update(texts)
+        if texts:
+            _fold_sentinel_tests(tree)
     _Compare().visit(tree)
     for n in ast.walk(tree):
         for f in ("body", "orelse", "finalbody"):
